@@ -83,7 +83,7 @@ def val_to_json(x):
 
 VALUE_SETS = {
     'six': [None, False, True, 0, 1, 2],
-    'mixed': [None, 1, 2, 3, 'ab', ('b', 2), R1],
+    'mixed': [None, 1, 2, 'ab', ('b', 2), R1],
 }
 
 
